@@ -16,6 +16,19 @@ OVERLAY = {
     "core/stat/verif_cpu.go": os.path.join(vlib.HARNESS, "overlay/stat/verif_cpu.go"),
     "core/timex/relativetime.go": os.path.join(vlib.HARNESS, "overlay/timex/relativetime.go"),
 }
+OVERLAY_REST = {"rest/handler/verif_c02_rest_test.go": os.path.join(vlib.HARNESS, "overlay/resthandler/verif_c02_rest_test.go")}
+OVERLAY_RPC = {"zrpc/internal/serverinterceptors/verif_c02_rpc_test.go":
+               os.path.join(vlib.HARNESS, "overlay/serverinterceptors/verif_c02_rpc_test.go")}
+EXECUTORS = {   # kind -> (package, overlay, test)
+    "shed": ("./core/load", OVERLAY, "^TestVerifC02$"),
+    "group": ("./core/load", OVERLAY, "^TestVerifC02Group$"),
+    "rest": ("./rest/handler", OVERLAY_REST, "^TestVerifC02Rest$"),
+    "rpc": ("./zrpc/internal/serverinterceptors", OVERLAY_RPC, "^TestVerifC02Rpc$"),
+}
+REST_CODES = [200, 201, 204, 301, 400, 404, 429, 500, 502, 503, 503, 504]
+RPC_OUTS = ["ok", "err", "deadline", "wrapped", "status_deadline", "panic"]
+RPC_COQ = {"ok": "GOk", "err": "GErr", "deadline": "GDeadline", "wrapped": "GWrappedDeadline",
+           "status_deadline": "GStatusDeadline", "panic": "GPanic"}
 TWO30 = Fraction(2 ** 30)
 
 # The runner evaluates cases in shards of 400 per coqc process; a C02 case costs ~50-100 ms
@@ -121,6 +134,15 @@ class C02(Property):
             ops = [["allow", B, 0, 0] for _ in range(12)] + [["pass", i, B + 99 * MS] for i in range(6)]
             ops += [["fail", 6], ["fail", 7], ["allow", B + tt, 990, 990], ["allow", B + tt, 990, 990]]
             cs.append(self._case(SEC, 10, 900, B, ops))
+        # wrappers: every outcome class, shed and let in, with and without panic / body
+        reqs = [{"shed": True, "codes": [200], "body": True, "panic": False}]
+        for codes in ([], [200], [503], [500], [500, 503], [503, 200], [204, 503, 404]):
+            for pn in (False, True):
+                reqs.append({"shed": False, "codes": codes, "body": not pn, "panic": pn})
+        cs.append({"kind": "rest", "reqs": reqs})
+        cs.append({"kind": "rpc", "reqs": [{"shed": True, "out": "ok"}, {"shed": True, "out": "panic"}]
+                   + [{"shed": False, "out": o} for o in RPC_OUTS]})
+        cs.append({"kind": "group", "keys": [1, 2, 1, 3, 2, 1, 1, 30]})
         for c in cs:
             c["corpus"] = True
         for fn in sorted(os.listdir(os.path.join(vlib.ROOT, "corpus", "C02"))) if os.path.isdir(os.path.join(vlib.ROOT, "corpus", "C02")) else []:
@@ -138,9 +160,27 @@ class C02(Property):
                (3200 * MS, 50), (3200 * MS, 50), (1600 * MS, 25), (6400 * MS, 50), (50 * MS, 50), (500 * MS, 10), (64 * MS, 4),
                (7 * SEC, 33), (4 * SEC, 3)]
 
+    def _gen_other(self, rng):
+        r = rng.random()
+        if r < 0.4:
+            reqs = []
+            for _ in range(rng.randint(3, 30)):
+                codes = [rng.choice(REST_CODES) for _ in range(rng.choice([0, 1, 1, 1, 2, 3]))]
+                reqs.append({"shed": rng.random() < 0.3, "codes": codes, "body": rng.random() < 0.5,
+                             "panic": rng.random() < 0.15})
+            return {"kind": "rest", "reqs": reqs}
+        if r < 0.8:
+            return {"kind": "rpc", "reqs": [{"shed": rng.random() < 0.3, "out": rng.choice(RPC_OUTS)}
+                                            for _ in range(rng.randint(3, 30))]}
+        nk = rng.randint(1, 6)
+        return {"kind": "group", "keys": [rng.randrange(nk) + rng.choice([0, 0, 26]) for _ in range(rng.randint(2, 25))]}
+
     def gen(self, rng, n, tier):
         cases = []
         for _ in range(n):
+            if rng.random() < 0.12:
+                cases.append(self._gen_other(rng))
+                continue
             if rng.random() < 0.8:
                 window, buckets = rng.choice(self.CONFIGS)
             else:
@@ -159,6 +199,16 @@ class C02(Property):
             open_ids = []
             done_ids = []
             lat_style = rng.choice(["short", "bucket", "long", "mixed"])
+            # fail-heavy family: in-flight builds up under an overloaded CPU and most promises are resolved with
+            # Fail, so that avgFlying is driven by Fail (shed_when_saturated is judged with the recomputed average)
+            fail_heavy = rng.random() < 0.25
+            p_pass, p_fail = (0.62, 0.74) if not fail_heavy else (0.44, 0.78)
+            if fail_heavy:
+                trace = rng.choice(["high", "high", "at", "mixed"])
+                if rng.random() < 0.6:
+                    window, buckets = rng.choice([(SEC, 1), (2 * SEC, 2), (4 * SEC, 3), (10 * SEC, 7), (3 * SEC, 2)])
+                    bd = window // buckets
+                lat_style = rng.choice(["short", "short", "mixed"])
             step = 0
             while len(ops) < nops:
                 r = rng.random()
@@ -169,21 +219,21 @@ class C02(Property):
                         open_ids.append(len(ops))
                         ops.append(["allow", t, c1, c2])
                         step += 1
-                elif r < 0.62 and open_ids:
+                elif r < p_pass and open_ids:
                     for _ in range(rng.choice([1, 1, 2, 4, 8])):
                         if not open_ids:
                             break
                         i = open_ids.pop(rng.randrange(len(open_ids)))
                         done_ids.append(i)
                         ops.append(["pass", i, t])
-                elif r < 0.74 and open_ids:
+                elif r < p_fail and open_ids:
                     for _ in range(rng.choice([1, 1, 2, 4])):
                         if not open_ids:
                             break
                         i = open_ids.pop(rng.randrange(len(open_ids)))
                         done_ids.append(i)
                         ops.append(["fail", i])
-                elif r < 0.76 and double and done_ids:
+                elif r < p_fail + 0.02 and double and done_ids:
                     i = rng.choice(done_ids)
                     ops.append(rng.choice([["pass", i, t], ["fail", i]]))
                 else:
@@ -224,18 +274,33 @@ class C02(Property):
 
     # ---- execution -----------------------------------------------------------
     def execute(self, cases, ctx):
-        rc, out, res = vlib.go_test_overlay("./core/load", OVERLAY, run="^TestVerifC02$", cases=cases, tag="c02", timeout=900)
-        if rc != 0 or len(res) != len(cases):
-            raise ExecError("c02 executor rc=%s (%d/%d results): %s" % (rc, len(res), len(cases), out[-3000:]))
-        for r in res:
-            if r.get("err"):
-                raise ExecError("c02 executor: case %s: %s" % (r.get("id"), r["err"]))
-        return [{"obs": r["obs"], "same": r["same"], "nop": r["nop"], "tries": r.get("tries", 1)} for r in res]
+        out = [None] * len(cases)
+        for kind, (pkg, ov, test) in EXECUTORS.items():
+            idx = [i for i, c in enumerate(cases) if c.get("kind", "shed") == kind]
+            if not idx:
+                continue
+            sub = [dict(cases[i], id=j) for j, i in enumerate(idx)]
+            rc, log_, res = vlib.go_test_overlay(pkg, ov, run=test, cases=sub, tag="c02" + kind, timeout=900)
+            if rc != 0 or len(res) != len(sub):
+                raise ExecError("c02 %s executor rc=%s (%d/%d results): %s" % (kind, rc, len(res), len(sub), log_[-3000:]))
+            for i, r in zip(idx, res):
+                if r.get("err"):
+                    raise ExecError("c02 executor: case %s: %s" % (cases[i].get("id"), r["err"]))
+                if kind == "shed":
+                    out[i] = {"obs": r["obs"], "same": r["same"], "nop": r["nop"], "tries": r.get("tries", 1)}
+                else:
+                    out[i] = {"obs": r["obs"]}
+        return out
 
     def prepare(self, ctx):
-        # compile the overlay test once (also proves it still builds against the current tree)
-        rc, out, res = vlib.go_test_overlay("./core/load", OVERLAY, run="^TestVerifC02$", cases=[], tag="c02p", timeout=900)
-        return rc == 0, out
+        # compile the overlay tests once (also proves they still build against the current tree)
+        for kind, (pkg, ov, test) in EXECUTORS.items():
+            if kind == "group":
+                continue
+            rc, out, res = vlib.go_test_overlay(pkg, ov, run=test, cases=[], tag="c02p", timeout=900)
+            if rc != 0:
+                return False, out
+        return True, ""
 
     def extra(self, ctx):
         """thorough tier: free-running -race monitor of conservation / idle-never-sheds under real concurrency."""
@@ -258,6 +323,31 @@ class C02(Property):
         return fails
 
     def coq_case(self, case, obs):
+        kind = case.get("kind", "shed")
+        if kind == "rest":
+            items = []
+            for q, o in zip(case["reqs"], obs["obs"]):
+                rq = "WRest %s (mkRO %s %s)" % ("VShed" if q["shed"] else "VGrant", clist([cz(c) for c in q["codes"]]), cbool(q["panic"]))
+                ob = "WO %s %s %s %s (VisStatus %s) %s" % (cz(o["runs"]), cz(o["allows"]), cz(o["passes"]), cz(o["fails"]), cz(o["code"]), cbool(o["panic"]))
+                items.append("(%s, %s)" % (rq, ob))
+            return "CWrap %s" % clist(items)
+        if kind == "rpc":
+            items = []
+            for q, o in zip(case["reqs"], obs["obs"]):
+                rq = "WRpc %s %s" % ("VShed" if q["shed"] else "VGrant", RPC_COQ[q["out"]])
+                v = o["vis"]
+                vis = "VisExhausted" if v == "exhausted" else ("(VisRpc %s)" % RPC_COQ[v] if v in RPC_COQ else "(VisStatus (-1))")
+                if v in RPC_COQ and v != "panic" and not o["val"]:
+                    vis = "(VisStatus (-2))"   # the handler's value was lost
+                ob = "WO %s %s %s %s %s %s" % (cz(o["runs"]), cz(o["allows"]), cz(o["passes"]), cz(o["fails"]), vis, cbool(o["panic"]))
+                items.append("(%s, %s)" % (rq, ob))
+            return "CWrap %s" % clist(items)
+        if kind == "group":
+            return "CGroup %s %s" % (clist([cz(k) for k in case["keys"]]),
+                                     clist(["(%s, %s)" % (cz(a), cz(b)) for a, b in obs["obs"]]))
+        return "CShed (%s)" % self._coq_shed(case, obs)
+
+    def _coq_shed(self, case, obs):
         items = []
         for o, b in zip(case["ops"], obs["obs"]):
             if o[0] == "allow":
@@ -310,6 +400,12 @@ class C02(Property):
         return res
 
     def nontrivial(self, case, obs):
+        kind = case.get("kind", "shed")
+        if kind in ("rest", "rpc"):
+            qs = case["reqs"]
+            return any(q["shed"] for q in qs) and any(o["fails"] for o in obs["obs"]) and any(o["passes"] for o in obs["obs"])
+        if kind == "group":
+            return len(set(case["keys"])) > 1 and len(case["keys"]) > len(set(case["keys"]))
         if obs["nop"]:
             return False
         w = self._walk(case, obs)
@@ -319,6 +415,17 @@ class C02(Property):
         return shed and hot_admit and passed
 
     def features(self, case, obs):
+        kind = case.get("kind", "shed")
+        if kind != "shed":
+            fs = ["kind=" + kind]
+            if kind != "group":
+                if any(o["panic"] for o in obs["obs"]):
+                    fs.append("wrapper_handler_panics")
+                if any(q["shed"] for q in case["reqs"]):
+                    fs.append("wrapper_shed")
+                if kind == "rest" and any(not q["codes"] and not q["body"] and not q["shed"] for q in case["reqs"]):
+                    fs.append("wrapper_handler_writes_nothing")
+            return fs
         fs = ["buckets<=%d" % (10 * (1 + (case["buckets"] - 1) // 10)), "window_s=%d" % (case["window"] // SEC),
               "mode=" + case["mode"], "via=" + case["via"], "threshold=%d" % case["threshold"],
               "ops<=%d" % (20 * (1 + len(case["ops"]) // 20))]
@@ -348,6 +455,24 @@ class C02(Property):
 
     # ---- shrinking: delete operations, renumber promise ids --------------------
     def shrink_candidates(self, case):
+        kind = case.get("kind", "shed")
+        if kind != "shed":
+            fld = "keys" if kind == "group" else "reqs"
+            xs = case[fld]
+            res = []
+            for i in range(len(xs)):
+                if len(xs) > 1:
+                    c = dict(case)
+                    c[fld] = xs[:i] + xs[i + 1:]
+                    res.append(c)
+            if kind == "rest":
+                for i, q in enumerate(xs):
+                    if len(q["codes"]) > 1:
+                        for j in range(len(q["codes"])):
+                            c = dict(case)
+                            c[fld] = xs[:i] + [dict(q, codes=q["codes"][:j] + q["codes"][j + 1:])] + xs[i + 1:]
+                            res.append(c)
+            return res[:200]
         ops = case.get("ops") or []
         n = len(ops)
         if n <= 1:
@@ -387,7 +512,7 @@ class C02(Property):
         readings are exactly cpuMax, and the history satisfies every clause of the property once
         shed_when_saturated carries its excluding hypothesis (Check.prop_ok_excl, evaluated in Coq) - i.e. the only
         failing clause is shed_when_saturated at the NaN corner."""
-        if case.get("threshold") != 1000 or obs.get("nop"):
+        if case.get("kind", "shed") != "shed" or case.get("threshold") != 1000 or obs.get("nop"):
             return None
         if not any(o[0] == "allow" and o[2] >= 1000 and o[3] == 1000 and not b["shed"]
                    for o, b in zip(case["ops"], obs["obs"])):
@@ -401,6 +526,11 @@ class C02(Property):
         return self.KNOWN_NAN if cache[key] else None
 
     def describe_failure(self, case, obs):
+        if case.get("kind", "shed") in ("rest", "rpc"):
+            return ("wrapper: a shed request ran the handler / did not get the overload answer, or a let-in request's promise "
+                    "was not resolved exactly once (Fail iff 503 / DeadlineExceeded), or the handler's result was altered")
+        if case.get("kind") == "group":
+            return "ShedderGroup: same key did not give the same shedder, or different keys shared one"
         return ("on the implementation: an Allow was shed although not hot / not above 10% of capacity, or was admitted although "
                 "overloaded with flying and avgFlying above capacity, or flying != admitted - resolved, or a disabled shedder shed")
 
